@@ -11,6 +11,6 @@ def run(tier, rep):
     rng = random.Random(seed())
     q = tier == "quick"
     specs = families.conv_systematic(tier) + [sp for sp in families.conv_mask_core() if len(sp["configs"][0]) > 3] + families.frac_follow_core() + sample(families.gen_affine_plain, rng, 20 if q else 150) + sample(families.gen_conv, rng, 10 if q else 300)
-    run_exec("C04", tier, rep, specs, ("Err:", "OutputCorrect", "OutputRestored", "WithinExtent"), cap_q=16, cap_t=120, rng=rng, dense_bias=True,
+    run_exec("C04", tier, rep, specs, ("Err:", "OutputCorrect", "OutputRestored", "WithinExtent", "ShapeCovers"), cap_q=16, cap_t=120, rng=rng, dense_bias=True,
              rule="systematic 1-D family (coefficient pairs x every loop order x partitioned output rank with follower) + seeded 1-D/2-D convolution, stride, dilation, subsampling with coefficients 1-4 x legal loop orders (incl. the input's own rank) + shape partitioning "
                   "of the output rank with the input rank following; shape-consistent extents Q<=5, S<=3")
